@@ -312,4 +312,15 @@ def gen_histories(rng, tier):
             elif k == "revert": ugly = prev_ugly
             elif k == "settime": ugly = True
         hist.append((cfg, seq))
+    # recording life cycle: every order of three recording operations followed by a query, on every configuration
+    # (regression: enable, remove, query raised TypeError before fix 038111f)
+    import itertools
+    recops = [dict(op="recon"), dict(op="recoff"), dict(op="recreset"), dict(op="recremove"), dict(op="update", v=None)]
+    for cfg in CONFIGS[:2]:
+        for trio in itertools.product(recops, repeat=3):
+            for t in (Fr(0), Fr(3, 2)):
+                seq = [dict(o) for o in trio] + [dict(op="settime", t=t)]
+                if any(o["op"] == "update" for o in seq):
+                    continue
+                hist.append((cfg, seq))
     return hist
